@@ -290,7 +290,11 @@ func RunC06(job *C06Job, d *dev.Dev) *C06Result {
 	emit := func(n int, fam string, script []plan.DevStep) {
 		dv := streamFor(rng, ctr)
 		dv.Script = script
-		r.one(C06Case{N: n, Lang: ctr % ref.NumLang, Dev: dv, Family: fam})
+		// the "panics" family is executed one case per process (job.Lo <= index < job.Hi): after the source
+		// itself has panicked inside a call, the simulated caller does not go on using the library
+		if fam != "panics" || (uint64(ctr) >= job.Lo && uint64(ctr) < job.Hi) {
+			r.one(C06Case{N: n, Lang: ctr % ref.NumLang, Dev: dv, Family: fam})
+		}
 		ctr++
 	}
 	switch job.Kind {
